@@ -52,8 +52,11 @@ int c_var2h(int nvalvar, int nvalh,
 
     /* Set first time step to be immediately before hstart */
     varindex = 0;
-    while(varsec[varindex]<=hstartsec) varindex++;
+    while(varindex<nvalvar && varsec[varindex]<=hstartsec) varindex++;
     varindex--;
+
+    /* The last interval starts at the one before last point */
+    if(varindex>nvalvar-2) varindex = nvalvar-2;
 
     /* hstart is smaller than first value in varsec */
     if(varindex<0)
